@@ -83,6 +83,16 @@ mod harnesses {
         kani::cover!(a > b && b > c);
         kani::cover!(a.is_nan());
     }
+    // @harness f1_total_order props=C13,C04 tier=quick kind=complete flags="--no-overflow-checks" what="for non-NaN f32 (all bit patterns): (a <= b) == !(a > b) - the order law assumed by the early-stopping unit" timeout=600
+    #[kani::proof]
+    fn f1_total_order() {
+        let a: f32 = kani::any();
+        let b: f32 = kani::any();
+        kani::assume(!a.is_nan() && !b.is_nan());
+        assert!((a <= b) == !(a > b));
+        kani::cover!(a > b);
+        kani::cover!(a == b);
+    }
 
     // ---------------------------------------------------------------- C15: element-wise ops, every rank
     macro_rules! elementwise {
